@@ -115,7 +115,8 @@ func runC15(o *opts) (*summary, error) {
 		// (the same text once more: what a parser answers is a function of the text, not of having seen it before)
 		w.put(M{"fn": "parse", "role": role, "s": cps(s), "text": s, "out": first, "again": parseOut(role, s)}, class, role+"|"+s)
 		// the same text through Set() on a zero value (every fourth text): judged like Parse
-		if nset++; nset%4 == 0 || class == "odd" || class == "ports-odd" {
+		// (and every text around a port rule, and half of those the parser refuses: Set has to refuse them too)
+		if nset++; nset%4 == 0 || class == "odd" || class == "ports-odd" || class == "ports" || (first["t"] == "err" && nset%2 == 0) {
 			w.put(M{"fn": "parse", "role": role, "s": cps(s), "text": s, "out": parseOutVia(role, s, setRole), "entry": "Set"}, class+"-set", role+"|set|"+s)
 		}
 	}
